@@ -739,6 +739,9 @@ fn do_print(p: &Print, cap: usize) -> Guarded<(std::fmt::Result, SimSink)> {
 }
 
 fn expected_text(p: &Print) -> Option<String> {
+    if p.words.is_empty() {
+        return None; // an empty BoxedUint has no stated rendering; run for totality and the prefix property only
+    }
     let mut w = p.words.clone();
     if matches!(p.ty, PTy::NzUint | PTy::OddUint | PTy::NzLimb | PTy::OddBoxed) {
         w[0] |= 1;
@@ -833,6 +836,9 @@ fn exec_print(p: &Print, out: &mut RunOut) {
 // generation
 
 pub fn gen_words(r: &mut Xoshiro, limbs: usize) -> Vec<u64> {
+    if limbs == 0 {
+        return Vec::new();
+    }
     let mut w = vec![0u64; limbs];
     match r.below(9) {
         0 => {}
@@ -1022,7 +1028,8 @@ impl TypedScenario for PrintSc {
         let ty = *r.pick(&[PTy::Limb, PTy::Uint, PTy::Uint, PTy::Int, PTy::Boxed, PTy::Boxed, PTy::NzUint, PTy::OddUint, PTy::WrappingUint, PTy::NzLimb, PTy::OddBoxed]);
         let limbs = match ty {
             PTy::Limb | PTy::NzLimb => 1,
-            PTy::Boxed | PTy::OddBoxed => r.range(1, 9) as usize,
+            PTy::Boxed => r.below(10) as usize, // 0 limbs: the empty BoxedUint special case (no content oracle, see expected_text)
+            PTy::OddBoxed => r.range(1, 9) as usize,
             _ => *r.pick(&[1usize, 2, 3, 4, 6, 8]),
         };
         let tr = *r.pick(&[FmtTrait::LowerHex, FmtTrait::UpperHex, FmtTrait::Binary, FmtTrait::Display, FmtTrait::Debug]);
